@@ -3,7 +3,9 @@ package main
 import (
 	"fmt"
 
+	"verif/internal/oracle/csstok"
 	"verif/internal/oracle/htmltok"
+	"verif/internal/oracle/whaturl"
 )
 
 // selftest validates the oracles against their trust anchors. A failure is a
@@ -19,6 +21,28 @@ func selftest(verbose bool) int {
 		rc = 2
 		for i, f := range h.Failures {
 			if f != "" && i < 25 {
+				fmt.Println("  FAIL", f)
+			}
+		}
+	}
+	cc, cf := csstok.SelfTest()
+	if verbose || len(cf) > 0 {
+		fmt.Printf("csstok vs hand-derived CSS Syntax 3 cases: cases=%d failed=%d\n", cc, len(cf))
+	}
+	if len(cf) > 0 {
+		rc = 2
+		for _, f := range cf {
+			fmt.Println("  FAIL", f)
+		}
+	}
+	uc, up, uf := whaturl.SelfTest()
+	if verbose || len(uf) > 0 {
+		fmt.Printf("whaturl vs WPT urltestdata.json: cases=%d passed=%d failed=%d\n", uc, up, len(uf))
+	}
+	if len(uf) > 0 || uc < 500 {
+		rc = 2
+		for i, f := range uf {
+			if i < 25 {
 				fmt.Println("  FAIL", f)
 			}
 		}
